@@ -1040,7 +1040,14 @@ func execPipe(f []string) vlib.Res {
 		return vlib.Res{Impl: "ok"}
 	case "age": // pipe age <id>: the entry enters its prefetch window
 		se := entries[vlib.Atoi(f[2])]
-		if se == nil || se.ptr == nil {
+		live := false
+		if se != nil && se.ptr != nil {
+			store().ForEach(func(_ bool, _ uint64, e *mcache.CacheEntry) bool {
+				live = live || e == se.ptr
+				return !live
+			})
+		}
+		if !live {
 			return vlib.Res{Impl: "no-such-entry"}
 		}
 		mcache.VerifC03Age(se.ptr)
@@ -1102,7 +1109,8 @@ func execPipe(f []string) vlib.Res {
 		al, _ := oPresLabels(rec.q.Name)
 		// the audience the authority (and the operator's floor) allow this answer to have
 		allowed := netip.Prefix{}
-		if rec.ecs != nil && ans.scopeBits > 0 {
+		// (a SCOPE longer than the address cannot come off the wire — the codec refuses the option — and is not judged)
+		if rec.ecs != nil && ans.scopeBits > 0 && ans.scopeBits <= map[uint16]int{1: 32, 2: 128}[rec.ecs.Family] {
 			bits := min(ans.scopeBits, int(rec.ecs.SourceNetmask))
 			var a netip.Addr
 			if rec.ecs.Family == 1 {
